@@ -3,6 +3,7 @@
 -/
 import N2V.Model.Load
 import N2V.Lemmas.DepfileTotal
+import N2V.Lemmas.ParseTotal
 import N2V.Model.Depfile
 namespace N2V.C12
 open N2V N2V.Scanner N2V.Load
@@ -130,5 +131,38 @@ theorem depfile_parse_total (text : Bytes) : match Depfile.parse text with
     | .ok _ _ => True
     | .perr _ _ => True
     | .bad _ => False := Depfile.parse_total text
+
+
+/-- **Every manifest (and included file) is either parsed or rejected with a diagnostic** (byte
+    level, all inputs).  For every file content, the scanner `Scanner::new` builds over the
+    NUL-terminated buffer is in good standing, and from any position in good standing one round of
+    `Parser::read` (`readItem`: blank lines, comments, `rule`/`build`/`default`/`include`/
+    `subninja`/`pool` statements with all their sub-parsers, bindings, `$`-escapes, continuations)
+    returns an item or a parse error with an offset, leaving the scanner in good standing again;
+    every item other than end-of-file consumed at least one byte, so the statement loop ends
+    after at most `size` rounds.  The abnormal outcomes of the model — a read outside the buffer,
+    `back` before the start, a wrapped line counter, running out of fuel in any of the parser's
+    eight loops — are unreachable.  (`Ok1` excludes them by definition; Lemmas/ParseTotal.) -/
+theorem manifest_parse_total (text : Bytes) :
+    ∃ s0, Scanner.new (text ++ [Scanner.NUL]).toArray = .ok s0 ∧
+      ∀ s, Depfile.G (text ++ [Scanner.NUL]).toArray s →
+        Parse.Ok1 (fun it s' => Depfile.G (text ++ [Scanner.NUL]).toArray s' ∧ s.ofs ≤ s'.ofs ∧
+              ((match it with | .eof => False | _ => True) → s.ofs < s'.ofs))
+          (Parse.readItem ((text ++ [Scanner.NUL]).toArray.size + 1) s) ∧
+        Depfile.G (text ++ [Scanner.NUL]).toArray s0 :=
+  Parse.readItem_total text
+
+/-- What "never abnormal" means: `Ok1 P r` holds only of values and parse errors. -/
+theorem ok1_excludes_abnormal {α : Type} (P : α → Scanner → Prop) (r : Res Unit) : ¬ Parse.Ok1 P (.bad r) :=
+  fun h => h
+
+/-- The scanner facts everything rests on: a read at a readable position of a well-formed scanner
+    succeeds and keeps it well-formed; `back` after at least one byte succeeds, keeps the line
+    counter exact (no wrap), and lands one byte back — or two, on the `\r` of a `\r\n` (the quirk
+    of scanner.rs l.63-66) — never on a `\n` that follows a `\r`. -/
+theorem scanner_back_sound {buf : Array UInt8} {s : Scanner} (w : Scanner.SW buf s) (h : 0 < s.ofs) :
+    ∃ s', s.back = .ok s' ∧ Scanner.SW buf s' ∧ Scanner.NCR buf s'.ofs ∧ s'.ofs < buf.size := by
+  obtain ⟨s', hb, w', n', lt', _⟩ := Scanner.back_ok w h
+  exact ⟨s', hb, w', n', lt'⟩
 
 end N2V.C12
